@@ -20,9 +20,9 @@ RULE = (
 )
 ASSUMPTIONS = ["only behaviour-observable keys are generated, so the check never reads sqlfluff's internal config objects"]
 TIMEOUT = {"quick": 900, "thorough": 1800}
-MIN_NONTRIVIAL = {"quick": 35, "thorough": 500}
+MIN_NONTRIVIAL = {"quick": 35, "thorough": 200}
 REQUIRED_COUNTERS = ["precedence_checks", "isolation_checks"]
-N = 1200
+N = 400
 PROBE = "SELECT a, b  from some_table WHERE a = 1 and b = 2 Order by a\n"
 PROBE_B = "select x,y from other_table where x = 1 AND y = 2 ORDER BY 1\n"
 KEYS = {
